@@ -520,7 +520,7 @@ pub fn run(ctx: &mut Ctx) {
                 per sequence): (a) stream dfs-3req: every list of 1..=3 load_many requests over non-empty subsets of 3 keys x max_batch_size 1..=3 x \
                 NoCache/HashMapCache/LruCache(2) (thorough: + LruCache(1)) x three loader scripts (all calls succeed; first call fails; first call omits key 0 \
                 and second fails), with every woken task polled after each action, at most 1 drop under the all-succeed script (thorough: 2, and 1 under the \
-                others); (b) stream dfs-2req-fine: the same for 1..=2 requests with every single poll as its own action. `exhaustive` refers to (a) and (b). \
+                others); (b) stream dfs-2req-fine: the same for 1..=2 requests with every single poll as its own action (quick: NoCache/HashMapCache only). `exhaustive` refers to (a) and (b). \
                 Thorough adds a bounded enumeration for 3 requests with single polls (all prefixes of 9 actions). Random (proptest): 1..=8 requests of 0..=4 keys \
                 (repeats allowed) over 2..=6 keys, max_batch_size 1..=6, five cache modes, scripted failures/omissions, up to 2 drops, every poll its own action. \
                 non-trivial = at least two requests were in flight at the same time; distinct by configuration + action sequence"
@@ -533,37 +533,9 @@ pub fn run(ctx: &mut Ctx) {
     ctx.assume("the loader returns only keys it was asked for; loader errors are distinct per call; requests of the enumerated configurations start in index order (the configuration list is closed under permutation of the requests)");
     ctx.assume("harness: the HashMap returned by the loader is re-created until it iterates in ascending key order so that runs with an evicting LruCache are reproducible; the oracle does not depend on it");
 
-    // regression / smoke witness
-    let t0 = Instant::now();
-    let w = Cfg { reqs: vec![vec![0, 1], vec![1, 2], vec![0]], max_batch: 3, cache: Mode::Hash, script: vec![], max_drops: 0 };
-    let out = execute(&w, true, usize::MAX, &mut |_| 0);
-    if ctx.check_case("witness", out.case, json!({})) {
+    // a replay of a saved random schedule needs none of the enumerations
+    if ctx.replay.is_none() && !enumerations(ctx) {
         return;
-    }
-    ctx.enumerated("witness", 1, true, t0);
-
-    let thorough = ctx.tier == vcore::Tier::Thorough;
-    let caches: Vec<Mode> = if thorough { vec![Mode::No, Mode::Hash, Mode::Lru(2), Mode::Lru(1)] } else { vec![Mode::No, Mode::Hash, Mode::Lru(2)] };
-    // drops allowed per loader script (all succeed / first call fails / first call omits key 0 and second fails)
-    let drops = if thorough { [2, 1, 1] } else { [1, 0, 0] };
-
-    // (a) woken tasks polled after every action, up to 3 requests
-    let a = match sweep(ctx, "dfs-3req", 1..=3, false, SAFETY_CAP, &caches, drops) {
-        Some(c) => c,
-        None => return,
-    };
-    // (b) every poll its own action, up to 2 requests
-    let b = match sweep(ctx, "dfs-2req-fine", 1..=2, true, SAFETY_CAP, &caches, drops) {
-        Some(c) => c,
-        None => return,
-    };
-    ctx.exhaustive = Some(a && b);
-    if thorough {
-        // (c) 3 requests, every poll its own action: every prefix of 9 actions, each continued with the first
-        // enabled action until quiescence (a bounded exploration, reported as incomplete)
-        if sweep(ctx, "dfs-3req-fine-prefix9", 3..=3, true, 9, &[Mode::Hash], [0, 0, 0]).is_none() {
-            return;
-        }
     }
 
     // random schedules over larger configurations
@@ -603,6 +575,44 @@ pub fn run(ctx: &mut Ctx) {
     ctx.floor("random/waiter-dropped", 20_000);
     ctx.floor("served-from-cache", 50_000);
     ctx.floor("batch-shared-by-requests", 100_000);
+}
+
+/// witness + the bounded-exhaustive streams; false if a violation was reported
+fn enumerations(ctx: &mut Ctx) -> bool {
+    // regression / smoke witness
+    let t0 = Instant::now();
+    let w = Cfg { reqs: vec![vec![0, 1], vec![1, 2], vec![0]], max_batch: 3, cache: Mode::Hash, script: vec![], max_drops: 0 };
+    let out = execute(&w, true, usize::MAX, &mut |_| 0);
+    if ctx.check_case("witness", out.case, json!({})) {
+        return false;
+    }
+    ctx.enumerated("witness", 1, true, t0);
+
+    let thorough = ctx.tier == vcore::Tier::Thorough;
+    let caches: Vec<Mode> = if thorough { vec![Mode::No, Mode::Hash, Mode::Lru(2), Mode::Lru(1)] } else { vec![Mode::No, Mode::Hash, Mode::Lru(2)] };
+    // drops allowed per loader script (all succeed / first call fails / first call omits key 0 and second fails)
+    let drops = if thorough { [2, 1, 1] } else { [1, 0, 0] };
+
+    // (a) woken tasks polled after every action, up to 3 requests
+    let a = match sweep(ctx, "dfs-3req", 1..=3, false, SAFETY_CAP, &caches, drops) {
+        Some(c) => c,
+        None => return false,
+    };
+    // (b) every poll its own action, up to 2 requests
+    let caches_b = if thorough { &caches[..] } else { &caches[..2] };
+    let b = match sweep(ctx, "dfs-2req-fine", 1..=2, true, SAFETY_CAP, caches_b, drops) {
+        Some(c) => c,
+        None => return false,
+    };
+    ctx.exhaustive = Some(a && b);
+    if thorough {
+        // (c) 3 requests, every poll its own action: every prefix of 9 actions, each continued with the first
+        // enabled action until quiescence (a bounded exploration, reported as incomplete)
+        if sweep(ctx, "dfs-3req-fine-prefix9", 3..=3, true, 9, &[Mode::Hash], [0, 0, 0]).is_none() {
+            return false;
+        }
+    }
+    true
 }
 
 /// a run longer than this many actions is cut (and the enumeration reported as incomplete); never reached by
